@@ -322,6 +322,9 @@ func runReceipts(r *core.Run) {
 				MsgLength: uint8(min(len(text), 255)), MsgContent: text[:min(len(text), 255)]}, false, m})
 		default:
 			id := c.Uint64()
+			if c.Prob(1, 6) {
+				id = spec.GenInt(c, 64) // edges, and ids whose first octets spell text ("id:…", a header magic)
+			}
 			for usedID[fmt.Sprint(id)] {
 				id++
 			}
